@@ -101,6 +101,9 @@ int main(int argc, char **argv){
     for (auto &v : fut){ std::string nm = "read(ascii image with future version major" + std::string(v[0] > M ? "+" : "=") + " minor" + (v[1] > m ? "+" : v[1] == m ? "=" : "-") + ")";
       std::string text = "TASMANIAN SG " + std::to_string(v[0]) + "." + std::to_string(v[1]) + "\n" + body;
       misuse(nm.c_str(), [&]{ std::stringstream ss(text); grid.read(ss, mode_ascii); }, true, true); }
+    misuse("read(ascii header whose version number does not fit an int)", [&]{ std::stringstream ss("TASMANIAN SG 99999999999.0\n" + body); grid.read(ss, mode_ascii); }, true, true);
+    misuse("read(ascii header whose minor version does not fit an int)", [&]{ std::stringstream ss("TASMANIAN SG 7.99999999999\n" + body); grid.read(ss, mode_ascii); }, true, true);
+    misuse("read(ascii header whose version is not a number)", [&]{ std::stringstream ss("TASMANIAN SG x.y\n" + body); grid.read(ss, mode_ascii); }, true, true);
     misuse("read(ascii image of a version before 3.0)", [&]{ std::stringstream ss("TASMANIAN SG 2.9\n" + body); grid.read(ss, mode_ascii); }, true, true);
     misuse("read(binary stream with the next format version)", [&]{ std::string h("TSG6"); h += std::string(32, '\x01'); std::stringstream ss(h); grid.read(ss, mode_binary); }, true, true);
   }
